@@ -19,6 +19,7 @@ From Coq Require Import Ascii String List ZArith Bool Arith.
 Import ListNotations.
 From TI Require Import model.Query model.QuerySpec proofs.QueryReadProofs proofs.QueryParseProofs
   proofs.QueryGetProofs proofs.QueryEndProofs.
+From TI Require Import model.QueryInit proofs.QueryInitProofs.
 From TI Require gen.QuerySrc proofs.QuerySrcTie.
 Open Scope Z_scope.
 
@@ -339,6 +340,159 @@ Theorem C12_silent_gives_defaults :
        pend st' = [] /\ now st' <= now st + qtimeout cfg + 2 * c).
 Proof. exact silent_defaults. Qed.
 Print Assumptions C12_silent_gives_defaults.
+
+(** *** the state the terminal is in WHEN the query is made
+
+    model/QueryInit.v: the terminal device = queue / clock / requests ([core], the [tty] of
+    Query.v) + its ATTRIBUTE SET ([attr]: echo, canonical, ISIG, OPOST, VMIN, VTIME — cooked,
+    cbreak, raw, anything); [arrived_all]: whatever is in the queue is unread INPUT that has
+    arrived (type-ahead, escape sequences of keys, a stale reply, half a sequence) — any
+    bytes.  [query_A guard] mirrors query_terminal / read_tty attribute call by attribute
+    call; [guard] = when the tcsetattr(TCSAFLUSH, no-echo) / restore pair is performed;
+    the code: [always_flush].  The theorems above start from [pend st = []]; these hold from
+    EVERY queue content and EVERY attribute set. *)
+
+(** Documented step 1 of a query ("clear all unread input"): the result and the state after a
+    query do not depend on the input that was unread when it was made. *)
+Theorem C12_query_discards_unread_input :
+  forall cost cfg term, enabled cfg = true ->
+    forall more request st, arrived_all st ->
+      query cost cfg term more request st = query cost cfg term more request (clear_input st).
+Proof. exact query_clear. Qed.
+Print Assumptions C12_query_discards_unread_input.
+
+(** ... whatever the attribute set met — which is also the attribute set left *)
+Theorem C12_query_any_initial_state :
+  forall cost cfg term, enabled cfg = true ->
+    forall more request s, arrived_all (core s) ->
+      query_A cost cfg term always_flush more request s
+      = (fst (query cost cfg term more request (clear_input (core s))),
+         lift (attr s) (snd (query cost cfg term more request (clear_input (core s))))).
+Proof. exact query_A_any_initial_state. Qed.
+Print Assumptions C12_query_any_initial_state.
+
+Theorem C12_fg_bg_reports_profile_any_initial_state :
+  forall cost c, (forall i, 0 <= cost i <= c) ->
+    forall cfg, enabled cfg = true -> 0 < qtimeout cfg ->
+    forall p, wf_profile p = true ->
+    forall delays s D,
+      arrived_all (core s) -> timely c cfg (profile_terminal p delays) FGBG_request D ->
+      exists s',
+        get_fg_bg_A cost cfg (profile_terminal p delays) always_flush s = (Some (exp_fg_bg cfg p), s') /\
+        pend (core s') = [] /\ attr s' = attr s /\
+        written (core s') = written (core s) ++ [FGBG_request] /\
+        now (core s) <= now (core s') <= now (core s) + qtimeout cfg
+          + c * (Z.of_nat (length (stream (profile_terminal p delays FGBG_request))) + 4).
+Proof. exact fg_bg_reports_profile_init. Qed.
+Print Assumptions C12_fg_bg_reports_profile_any_initial_state.
+
+Theorem C12_name_version_reports_profile_any_initial_state :
+  forall cost c, (forall i, 0 <= cost i <= c) ->
+    forall cfg, enabled cfg = true -> 0 < qtimeout cfg ->
+    forall p, wf_profile p = true ->
+    forall delays s D,
+      arrived_all (core s) -> timely c cfg (profile_terminal p delays) XTV_request D ->
+      exists s',
+        get_name_version_A cost cfg (profile_terminal p delays) always_flush s = (exp_name_version cfg p, s') /\
+        pend (core s') = [] /\ attr s' = attr s /\
+        written (core s') = written (core s) ++ [XTV_request] /\
+        now (core s) <= now (core s') <= now (core s) + qtimeout cfg
+          + c * (Z.of_nat (length (stream (profile_terminal p delays XTV_request))) + 4).
+Proof. exact name_version_reports_profile_init. Qed.
+Print Assumptions C12_name_version_reports_profile_any_initial_state.
+
+(** when the ioctl gives the pixel size no query is made and the terminal is not touched: the
+    unread input stays; otherwise it is discarded and no reply byte remains *)
+Theorem C12_cell_size_reports_profile_any_initial_state :
+  forall cost c, (forall i, 0 <= cost i <= c) ->
+    forall cfg, enabled cfg = true -> 0 < qtimeout cfg ->
+    forall p, wf_profile p = true ->
+    forall delays c0 s D,
+      cache_hit cfg c0 = false -> 0 < ws_cols cfg -> 0 < ws_rows cfg ->
+      arrived_all (core s) -> timely c cfg (profile_terminal p delays) CELL_request D ->
+      exists c1 s',
+        get_cell_size_A cost cfg (profile_terminal p delays) always_flush c0 s = (exp_cell cfg p, c1, s') /\
+        pend (core s') = (if cell_query_needed cfg c0 then [] else pend (core s)) /\
+        attr s' = attr s /\
+        now (core s) <= now (core s') <= now (core s) + qtimeout cfg + 2 * c.
+Proof. exact cell_size_reports_profile_init. Qed.
+Print Assumptions C12_cell_size_reports_profile_any_initial_state.
+
+Theorem C12_kitty_reports_profile_any_initial_state :
+  forall cost c, (forall i, 0 <= cost i <= c) ->
+    forall cfg, enabled cfg = true -> 0 < qtimeout cfg ->
+    forall p, wf_profile p = true ->
+    forall delays s D1 D2,
+      arrived_all (core s) ->
+      timely c cfg (profile_terminal p delays) XTV_request D1 ->
+      timely c cfg (profile_terminal p delays) KITTY_request D2 ->
+      exists s',
+        kitty_is_supported_A cost cfg (profile_terminal p delays) always_flush (s, None)
+        = (exp_kitty cfg p, (s', Some (exp_name_version cfg p))) /\
+        pend (core s') = [] /\ attr s' = attr s /\
+        now (core s) <= now (core s') <= now (core s) + 2 * qtimeout cfg
+          + c * (Z.of_nat (length (stream (profile_terminal p delays XTV_request))) + 6).
+Proof. exact kitty_reports_profile_init. Qed.
+Print Assumptions C12_kitty_reports_profile_any_initial_state.
+
+Theorem C12_auto_reports_profile_any_initial_state :
+  forall cost c, (forall i, 0 <= cost i <= c) ->
+    forall cfg, enabled cfg = true -> 0 < qtimeout cfg ->
+    forall p, wf_profile p = true ->
+    forall delays s D1 D2,
+      arrived_all (core s) ->
+      timely c cfg (profile_terminal p delays) XTV_request D1 ->
+      timely c cfg (profile_terminal p delays) KITTY_request D2 ->
+      exists s',
+        auto_image_class_A cost cfg (profile_terminal p delays) always_flush (s, None)
+        = (Some (exp_auto cfg p), (s', Some (exp_name_version cfg p))) /\
+        pend (core s') = [] /\ attr s' = attr s /\
+        now (core s) <= now (core s') <= now (core s) + 2 * qtimeout cfg
+          + c * (Z.of_nat (length (stream (profile_terminal p delays XTV_request))) + 6).
+Proof. exact auto_reports_profile_init. Qed.
+Print Assumptions C12_auto_reports_profile_any_initial_state.
+
+(** one cache epoch with at least one call (the first call's query does the discarding) *)
+Theorem C12_epoch_reports_profile_any_initial_state :
+  forall cost c, (forall i, 0 <= cost i <= c) ->
+    forall cfg, enabled cfg = true -> 0 < qtimeout cfg ->
+    forall p, wf_profile p = true ->
+    forall delays D1 D2,
+      timely c cfg (profile_terminal p delays) FGBG_request D1 ->
+      timely c cfg (profile_terminal p delays) XTV_request D2 ->
+      forall s call calls, arrived_all (core s) ->
+        fst (session_A cost cfg (profile_terminal p delays) always_flush (call :: calls) (s, [], None))
+        = map (exp_call cfg p) (call :: calls) /\
+        pend (core (fst (fst (snd (session_A cost cfg (profile_terminal p delays) always_flush
+                                     (call :: calls) (s, [], None)))))) = [] /\
+        attr (fst (fst (snd (session_A cost cfg (profile_terminal p delays) always_flush
+                               (call :: calls) (s, [], None))))) = attr s.
+Proof. exact epoch_reports_profile_init. Qed.
+Print Assumptions C12_epoch_reports_profile_any_initial_state.
+
+(** EXCLUDED design — perform the tcsetattr pair only when input echo is on ("nothing to
+    change or restore otherwise"): on echoing modes it IS the code ... *)
+Theorem C12_flush_only_when_echo_agrees_on_echoing_modes :
+  forall cost cfg term more request s, a_echo (attr s) = true ->
+    query_A cost cfg term flush_if_echo more request s
+    = query_A cost cfg term always_flush more request s.
+Proof. exact flush_if_echo_agrees. Qed.
+Print Assumptions C12_flush_only_when_echo_agrees_on_echoing_modes.
+
+(** ... and with echo off (cbreak / raw, as inside a full-screen program) and unread input it
+    does not report what the terminal said although every reply is well-formed and timely
+    (witness: kitty 0.26.5, cbreak, "jk" typed ahead -> (None, None)); the code does *)
+Theorem C12_flush_only_when_echo_refuted :
+  exists cfg p delays a q0 D,
+    enabled cfg = true /\ 0 < qtimeout cfg /\ wf_profile p = true /\
+    timely 1 cfg (profile_terminal p delays) XTV_request D /\
+    a_echo a = false /\ arrived_all (core (ttyA_init a q0)) /\
+    fst (get_name_version_A (fun _ => 1) cfg (profile_terminal p delays) flush_if_echo (ttyA_init a q0))
+      <> exp_name_version cfg p /\
+    fst (get_name_version_A (fun _ => 1) cfg (profile_terminal p delays) always_flush (ttyA_init a q0))
+      = exp_name_version cfg p.
+Proof. exact flush_if_echo_refuted_exists. Qed.
+Print Assumptions C12_flush_only_when_echo_refuted.
 
 (** *** the colour-component scaling tied to the source as a theorem (T): the element expression
     of [x_parse_color]'s comprehension is translated from [_ctlseqs.py] on every run into
